@@ -28,10 +28,11 @@ func Rate() api.Builder {
 			) {
 				// Once ctx is done the run waits for the users still in an iteration itself, for at most its
 				// completion timeout. Waiting for them here as well would make that wait unbounded.
+				// (The pool's own context also ends when the iteration limit has been reached.)
 				pool := workers.NewContinuousPool(options.Concurrency)
-				pool.Start(ctx)
+				poolCtx := pool.Start(ctx)
 				select {
-				case <-ctx.Done():
+				case <-poolCtx.Done():
 				case <-workers.WaitForCompletion():
 				}
 			}
@@ -53,7 +54,7 @@ func Rate() api.Builder {
 func NewWorker(concurrency int) api.WorkTriggerer {
 	return func(ctx context.Context, _ *ui.Output, workers *workers.PoolManager, _ options.RunOptions) {
 		pool := workers.NewContinuousPool(concurrency)
-		pool.Start(ctx)
+		_ = pool.Start(ctx)
 		<-workers.WaitForCompletion()
 	}
 }
